@@ -151,10 +151,10 @@ def n_nodes(t):
 
 # ------------------------------------------------------------------------------ validity scan
 class ScanResult(object):
-    __slots__ = ('ok', 'reason', 'maxabs')
+    __slots__ = ('ok', 'reason', 'maxabs', 'minabs')
 
-    def __init__(self, ok, reason=None, maxabs=0.0):
-        self.ok, self.reason, self.maxabs = ok, reason, maxabs
+    def __init__(self, ok, reason=None, maxabs=0.0, minabs=math.inf):
+        self.ok, self.reason, self.maxabs, self.minabs = ok, reason, maxabs, minabs
 
 
 def scan(t, pts):
@@ -163,7 +163,7 @@ def scan(t, pts):
     a denominator or a log/sqrt/real-power argument whose real part is <= 0 (or tiny), an
     arcsin/arctanh argument with |Re| >= 1, cos under tan near 0, an intermediate above 1e100,
     an exp-like argument above 700, or any non-finite value."""
-    st = dict(ok=True, reason=None, maxabs=0.0)
+    st = dict(ok=True, reason=None, maxabs=0.0, minabs=math.inf)
     pts = np.asarray(pts, dtype=complex)
 
     def bad(reason):
@@ -231,6 +231,9 @@ def scan(t, pts):
             else:
                 m = float(np.max(np.abs(v)))
                 st['maxabs'] = max(st['maxabs'], m)
+                nz = np.abs(v)[np.abs(v) > 0]
+                if nz.size:
+                    st['minabs'] = min(st['minabs'], float(np.min(nz)))      # smallest non-zero intermediate
                 if m > 1e100:
                     bad('intermediate above 1e100')
         return v
@@ -239,7 +242,7 @@ def scan(t, pts):
         ev(t)
     except Exception as exc:  # pragma: no cover
         bad('scan error %r' % (exc,))
-    return ScanResult(st['ok'], st['reason'], st['maxabs'])
+    return ScanResult(st['ok'], st['reason'], st['maxabs'], st['minabs'])
 
 
 def _eval_c(t, z):
